@@ -8,7 +8,7 @@ CONSTANTS
   FromInput <- FromBoth
   ExplicitTargets = FALSE
   Refusals = FALSE
-  ZeroHeightRefused = FALSE
+  ZeroHeightRefused = TRUE
   AlignTarget = FALSE
   MaxLevel = 4
 INIT Init
